@@ -791,4 +791,158 @@ def step : TopoOp → M Topo Out
   | .unsetProp i g => unsetProp i g >>= fun _ => pure ⟨none, none⟩
   | .rename c i n => rename c i n >>= fun _ => pure ⟨none, none⟩
 
+
+/-! ## second alphabet: sub-interfaces, peering, port mirroring, `model_type=` components
+
+Kept apart from `TopoOp` (its own inductive `XOp` and `stepX`) so that everything stated over `TopoOp` stays as it is. -/
+
+/-- `i.labels.vlan` of a cached child handle: the `Labels` graph property decoded through the table the request
+carries (decoding JSON is the sliver codec's business, C02/C03; only truthy vlans are listed) -/
+def vlanOfNode (tbl : List (String × String)) (n : GNode) : Option String :=
+  match lookupD n.props "Labels" with
+  | none => none
+  | some js => lookupD tbl js
+
+/-- `Interface.add_child_interface`; `vlan` = `kwargs['labels'].vlan` when both are truthy; returns id and extended cache -/
+def addChildInterface (fl : Flavour) (c : Nat) (port : Nid) (cache : Cache) (name : String) (nid : Option Nid)
+    (vlan : Option String) (vlanTbl : List (String × String)) (props : List PropArg) : M Topo (Nid × Cache) := do
+  let p ← findNode port
+  M.guard (p.typ == "DedicatedPort") .assertion
+  M.guard (!(cache.map (·.1)).contains name) .topology
+  let v ← need vlan .topology
+  let used ← filterMapM' (fun (x : String × Nid) => do let n ← findNode x.2; pure (vlanOfNode vlanTbl n)) cache
+  M.guard (!used.contains v) .topology
+  let p2 ← findNode port
+  M.guard (p2.props.any (fun q => q.1 == "Labels")) .topology
+  let r ← ifaceNew fl c name nid (some port) (some "SubInterface") props
+  pure (r.1, cache ++ [(name, r.1)])
+
+/-- `Interface.remove_child_interface`; returns the filtered cache -/
+def removeChildInterface (port : Nid) (cache : Cache) (name : String) : M Topo Cache := do
+  let p ← findNode port
+  M.guard (p.typ == "DedicatedPort") .assertion
+  let kids ← childrenOf port [.connectionPoint] .connects .connectionPoint
+  let k ← need (kids.find? (fun n => n.name == name)) .query
+  detachAll [k.nid]
+  removeCpAndLinks k.nid false
+  pure (cache.filter (fun x => x.2 != k.nid))
+
+/-- the other service handle of `peer` / `unpeer`: node id, cached name, interface cache -/
+structure SvcHandle where
+  nid : Nid
+  name : String
+  cache : Cache
+  deriving Repr, Inhabited
+
+/-- `NetworkService.peer`; `other = none` stands for an object that is not a NetworkService.  With
+`Rules.peerRollback` the ServicePorts created so far are removed when a later step raises.  Returns both caches. -/
+def peer (fl : Flavour) (c : Nat) (svc : Nid) (sname : String) (cache : Cache) (other : Option SvcHandle)
+    (props : List PropArg) : M Topo (Cache × Cache) :=
+  match other with
+  | none => raise .assertion
+  | some o => do
+    let n1 := sname ++ "-" ++ o.name
+    let n2 := o.name ++ "-" ++ sname
+    let r1 ← nsAddInterface fl c svc cache n1 none (some "ServicePort") props
+    let undo (l : List Nid) (e : Err) : M Topo (Nid × Nat) :=
+      if Rules.peerRollback then do forEach l (fun i => removeCpAndLinks i true); raise e else raise e
+    let r2 ← tryCatch (nsAddInterface fl r1.2 o.nid o.cache n2 none (some "ServicePort") []) (fun _ => true) (undo [r1.1])
+    let _ ← tryCatch (linkNew fl r2.2 (n1 ++ "-link") none (some "L2Path") (some [.iface r1.1 n1, .iface r2.1 n2]) none [])
+      (fun _ => true) (undo [r1.1, r2.1])
+    pure (cache ++ [(n1, r1.1)], o.cache ++ [(n2, r2.1)])
+
+/-- the search loop of `unpeer`: the first own ServicePort one of whose ServicePort peers belongs to the other service -/
+def findPeering (otherIds : List Nid) : Cache → M Topo (Option (Nid × Nid))
+  | [] => pure none
+  | (_, own) :: rest => do
+    let t ← typeOf own
+    if t != "ServicePort" then findPeering otherIds rest else do
+      let peers ← peersOf own
+      let pn ← mapM' findNode peers
+      match pn.filter (fun n => n.typ == "ServicePort" && otherIds.contains n.nid) with
+      | p :: _ => pure (some (own, p.nid))
+      | [] => findPeering otherIds rest
+
+/-- `NetworkService.unpeer`; returns both filtered caches -/
+def unpeer (cache : Cache) (other : Option SvcHandle) : M Topo (Cache × Cache) :=
+  match other with
+  | none => raise .assertion
+  | some o => do
+    let sp ← findPeering (o.cache.map (·.2)) cache
+    let (a, b) ← need sp .topology
+    removeCpAndLinks a true
+    removeCpAndLinks b true
+    pure (cache.filter (fun x => x.2 != a), o.cache.filter (fun x => x.2 != b))
+
+/-- `ExperimentTopology.add_port_mirror_service`: the two assertions, then `NetworkService(nstype=PortMirror,
+interfaces=[to_interface], mirror_port=…, mirror_vlan=…, mirror_direction=…, **kwargs)` (the keywords are `a.props`) -/
+def addPortMirror (fl : Flavour) (c : Nat) (a : SvcArgs) (toOk fromOk : Bool) : M Topo (Nid × Cache) := do
+  M.guard toOk .assertion
+  M.guard fromOk .assertion
+  svcNew fl c none a
+
+/-- `Component(..., etype=NEW, comp_model=mt)`: `mt` = (Model, Type) of the `ComponentModelTypeMap` entry, which
+`generate_component` uses instead of `model` / `ctype`; the substrate guard still looks at `ctype` only -/
+def compNewMT (fl : Flavour) (c : Nat) (parent : Nid) (a : CompArgs) (mt : String × String) : M Topo Nid := do
+  M.guard (!(fl == .substrate && a.nid.isNone)) .topology
+  let (id, c1) := pick a.nid c
+  let ctypeArg := a.ctype.getD ""
+  M.guard (!(fl == .substrate && (ctypeArg == "SharedNIC" || ctypeArg == "SmartNIC") &&
+    (a.nsNid.isNone || a.ifNids.isNone || a.nLabels.isNone))) .topology
+  let p ← findNode parent
+  let e ← need (catalogFind mt.1 mt.2) (.named "catalog")
+  M.guard (validName .component a.name) .value
+  if e.hasIfaces then
+    match a.ifNids with
+    | some l => do
+        M.guard (l.length == e.ifaces.length) .runtime
+        match a.nLabels with
+        | some n => M.guard (n == e.ifaces.length) .runtime
+        | none => raise .typ
+    | none => pure ()
+  else pure ()
+  let (ifIds, c2) := if e.hasIfaces then ifaceIds a.ifNids e.ifaces.length c1 else ([], c1)
+  let (nsId, _) := if e.hasIfaces then pick a.nsNid c2 else (id, c2)
+  let kw ← ofExcept (validateProps a.props)
+  addGNode ⟨.component, id, a.name, e.ctype, dictUpdate [("Model", e.model), ("Details", e.details), ("StitchNode", "false")] kw⟩
+  addEdge parent .has id
+  if e.hasIfaces then do
+    addGNode ⟨.networkService, nsId, p.name ++ "-" ++ a.name ++ e.nsSuffix, e.nsType, [("StitchNode", "false"), ("Layer", "L2")]⟩
+    addEdge id .has nsId
+    forEach (e.ifaces.zip ifIds) (fun (ci, iid) => do
+      addGNode ⟨.connectionPoint, iid, a.name ++ "-" ++ ci.port, ci.itype, ci.props⟩
+      addEdge nsId .connects iid)
+  else pure ()
+  pure id
+
+/-- `Node.add_component(model_type=…)` -/
+def addComponentMT (fl : Flavour) (c : Nat) (parent : Nid) (a : CompArgs) (mt : String × String) : M Topo Nid := do
+  let comps ← childrenOf parent [.networkNode] .has .component
+  M.guard (!(comps.map (·.name)).contains a.name) .topology
+  compNewMT fl c parent a mt
+
+inductive XOp where
+  | addChildInterface (fl : Flavour) (c : Nat) (port : Nid) (cache : Cache) (name : String) (nid : Option Nid)
+      (vlan : Option String) (vlanTbl : List (String × String)) (props : List PropArg)
+  | removeChildInterface (port : Nid) (cache : Cache) (name : String)
+  | peer (fl : Flavour) (c : Nat) (svc : Nid) (sname : String) (cache : Cache) (other : Option SvcHandle) (props : List PropArg)
+  | unpeer (cache : Cache) (other : Option SvcHandle)
+  | addPortMirror (fl : Flavour) (c : Nat) (a : SvcArgs) (toOk fromOk : Bool)
+  | addComponentMT (fl : Flavour) (c : Nat) (parent : Nid) (a : CompArgs) (mt : String × String)
+
+/-- as `Out`, with the cache of the second handle a call may extend (`peer` / `unpeer`) -/
+structure OutX where
+  ret : Option Nid
+  cache : Option Cache
+  cache2 : Option Cache
+  deriving Repr, Inhabited
+
+def stepX : XOp → M Topo OutX
+  | .addChildInterface fl c p ca n i v tb pr => addChildInterface fl c p ca n i v tb pr >>= fun r => pure ⟨some r.1, some r.2, none⟩
+  | .removeChildInterface p ca n => removeChildInterface p ca n >>= fun r => pure ⟨none, some r, none⟩
+  | .peer fl c svc sn ca o pr => peer fl c svc sn ca o pr >>= fun r => pure ⟨none, some r.1, some r.2⟩
+  | .unpeer ca o => unpeer ca o >>= fun r => pure ⟨none, some r.1, some r.2⟩
+  | .addPortMirror fl c a t f => addPortMirror fl c a t f >>= fun r => pure ⟨some r.1, some r.2, none⟩
+  | .addComponentMT fl c p a mt => addComponentMT fl c p a mt >>= fun r => pure ⟨some r, none, none⟩
+
 end FimVerif.Topo
